@@ -689,6 +689,21 @@ pub fn check_self(c: &SelfCase) -> Verdict {
     Verdict::pass_c(Some(fp_json(c)), vec![format!("self-dump:{}", if c.bits & 1 != 0 { "from-second-thread" } else { "from-main-thread" }), line.replace("selfdump: ", "answer:").chars().take(60).collect()])
 }
 
+pub fn check_vanish(c: &SelfCase) -> Verdict {
+    let out = std::process::Command::new(crate::vcore::helpers::helper_exe()).args(["helper", "vanishdump", &(c.bits % 8).to_string()]).stdin(std::process::Stdio::null()).stderr(std::process::Stdio::null()).output();
+    let out = match out {
+        Ok(o) => String::from_utf8_lossy(&o.stdout).to_string(),
+        Err(e) => return Verdict::Inconclusive(format!("helper: {e}")),
+    };
+    let line = out.lines().find(|l| l.starts_with("vanish:")).unwrap_or("").to_string();
+    match line.as_str() {
+        "vanish: returned ok" | "vanish: returned err" => Verdict::pass_c(Some(fp_json(c)), vec![line.replace("vanish: ", "answer:")]),
+        "vanish: stuck" => Verdict::viol("C02:request-does-not-return:target-vanished-during-stop-wait", format!("a zombie target was reaped while the request (bits {:#x}) waited for it to stop; 8 s later - the stop timeout being at most 2 s - the request had still not returned", c.bits % 8)),
+        "vanish: panic" => Verdict::viol("C02:vanish:panic", "the request panicked".to_string()),
+        _ => Verdict::Inconclusive(format!("helper gave no answer: '{}'", out.trim())),
+    }
+}
+
 // ---------------------------------------------------------------------------
 // hostile memory-map texts (names the kernel can report) through the parser the dumper uses
 // ---------------------------------------------------------------------------
@@ -775,6 +790,12 @@ pub fn run(ctx: &mut LaneCtx) {
         (0u8..32).map(|bits| SelfCase { bits }),
         check_self,
     );
+    ctx.run_enum(
+        "vanishing-target",
+        "exhaustive x 4 repetitions: a sacrificial process asks for a dump of a child of its own that is a zombie when the request starts and is reaped (disappears from /proc) 30 or 150 ms later, while the request waits for it to stop; stop timeout 400 ms or 2 s, with or without a size limit; oracle = the request has returned 8 s after the reaping; every case non-trivial",
+        (0u8..32).map(|bits| SelfCase { bits }),
+        check_vanish,
+    );
     ctx.run_sub(
         SubSpec {
             name: "dev-rule",
@@ -841,6 +862,7 @@ pub fn replay(sub: &str, case: &Value) -> Verdict {
         "arena-hostile-elf" => replay_case::<crate::props::c14::KitCase>(case, check_arena_elf),
         "dev-rule" => replay_case::<DevCase>(case, check_dev),
         "self-dump" => replay_case::<SelfCase>(case, check_self),
+        "vanishing-target" => replay_case::<SelfCase>(case, check_vanish),
         "degenerate-targets" => replay_case::<DegCase>(case, check_degenerate),
         "live-pivot-names" => replay_case::<PivotCase>(case, check_pivot),
         "maps-text" => replay_case::<MapsCase>(case, check_maps_text),
